@@ -1540,6 +1540,11 @@ def _encode_host(host: str, validate_host: bool) -> str:
             raise ValueError(
                 f"Host {host!r} cannot contain {value!r} (at position {pos}){extra}"
             ) from None
+        if ":" in host:
+            # Not an IP address, but a colon can only come from a bracketed
+            # literal (e.g. IPvFuture); keep the brackets so that the
+            # authority stays parsable.
+            return f"[{host}]"
         return host
 
     encoded_host = _idna_encode(host)
@@ -1549,6 +1554,8 @@ def _encode_host(host: str, validate_host: bool) -> str:
             f"Host {host!r} cannot contain {invalid.group()!r} "
             f"(at position {invalid.start()}) after IDNA encoding"
         )
+    if ":" in encoded_host:
+        return f"[{encoded_host}]"
     return encoded_host
 
 
